@@ -150,6 +150,11 @@ func runC42(c *Ctx) []Obligation {
 		c.twins(P, "twins.prefix", "types.prefixKeyForSigner", "types.prefixKeyForRecipient", s2r, "recipient prefixes are built like signer prefixes"),
 		c.twins(P, "twins.query", "(*types.TransactionIndexer).signerQuery", "(*types.TransactionIndexer).recipientQuery", s2r, "a recipient search is a signer search over the recipient index"),
 	)
+	out = append(out,
+		c.edgeMust(P, "page.entries-past-the-skip-are-fetched", "(*types.TransactionIndexer).getByPrefix", `^lt\(phi:skipCount, pagination\.Skip\)$`, false, `^\(\*types\.TransactionIndexer\)\.Get\(t, `, 1, "exactly Skip entries are passed over: the next one is fetched"),
+		c.edgeMust(P, "page.entries-within-size-are-returned", "(*types.TransactionIndexer).getByPrefix", `^lt\(phi:i, pagination\.Size\)$`, true, `^builtin\.append\(var:res, `, 1, "an entry fetched while fewer than Size were returned is returned"),
+		c.loopsExitOnlyAtHeader(P, "write.AddBatch.visits-every-result", "(*types.TransactionIndexer).AddBatch", "a result that is not indexed (an ante failure) does not stop the rest of the batch from being indexed"),
+	)
 	out = append(out, c.edgeMust(P, "page.every-entry-counted", "(*types.TransactionIndexer).getByPrefix", `^invoke github\.com/tendermint/tm-db\.Iterator\.Valid\(`+it+`\)$`, true, `store:^&var:total = \(var:total \+ 1\)$ || ret:^nil ; 0 ; `, 1, "every entry in range is counted into the total (or the query fails)"))
 	return out
 }
